@@ -58,6 +58,15 @@ def generate(ctx):
                         yield "ctor", dict(k=k, run=run, motif_len=ml, bare=True)
                 i += 1
     ctx.exhausted[EXHAUSTIVE[0]] = True
+    for _ in range(ctx.pick(150, 1500)):
+        # motif *lists*: several motifs of lengths around the window, in any order (an over-long one first, last, in the middle,
+        # alphabetically first or last), as a list or a tuple
+        k = rng.randint(1, 8)
+        lens = [rng.randint(1, k + 2) for _ in range(rng.randint(2, 4))]
+        if rng.random() < 0.6:
+            lens[rng.randrange(len(lens))] = k + rng.choice([1, 1, 2])
+        yield "ctor", dict(k=k, run=rng.choice([None, None, max(k - 1, 0)]), motif_len=max(lens), motifs=[gens.random_dna(rng, n) for n in lens],
+                           container=rng.choice(["list", "list", "tuple"]))
     for _ in range(ctx.pick(25, 250)):   # G2: one filter object, tightened between two runs of the pipeline
         k = rng.choice([2, 3, 3, 4])
         yield "filter_sequence", dict(k=k, t=rng.choice([1, 2]), run0=rng.choice([None, k - 1 if k > 2 else None]), run1=rng.choice([1, 2]) if k > 2 else 1,
@@ -96,18 +105,22 @@ def check_ctor(ctx, case):
     dsw = import_dsw()
     k, run, ml = case["k"], case["run"], case["motif_len"]
     motifs = None if ml is None else ["ACGTACGTACGT"[:ml]]
+    if case.get("motifs"):
+        motifs = list(case["motifs"]) if case.get("container") != "tuple" else tuple(case["motifs"])
+        ctx.cls("ctor|several motifs (%s)" % case.get("container"))
     if case.get("bare") and motifs:
         motifs = motifs[0]             # a single motif handed over as a plain string
     out = monitored(dsw.LocalBioFilter, 10000, observed_length=k, max_homopolymer_runs=run, undesired_motifs=motifs)
     decidable = (run is None or run < k) and (ml is None or ml <= k)
-    if out.kind == "ok" and case.get("bare"):
+    if out.kind == "ok" and (case.get("bare") or case.get("motifs")):
         # judged from the filter that was built: the motifs it holds (a string is iterated symbol by symbol by the
         # unmodified filter, which is window-decidable) and its run limit
         held = out.value.undesired_motifs
         held = [] if held is None else list(held)
         r2 = out.value.max_homopolymer_runs
         decidable = (r2 is None or r2 < k) and all(len(m) <= k for m in held)
-        ctx.cls("ctor|bare-string motif")
+        if case.get("bare"):
+            ctx.cls("ctor|bare-string motif")
     if out.kind == "ok":
         ctx.cls("ctor|accepted")
         if not decidable:
@@ -118,7 +131,8 @@ def check_ctor(ctx, case):
                 why.append("motif too long")
             ctx.fail("constructor-accepts-undecidable",
                      "LocalBioFilter(observed_length=%d, max_homopolymer_runs=%s, motif length %s%s) was accepted but is not "
-                     "window-decidable (%s)" % (k, run, ml, " as a bare string" if case.get("bare") else "", ", ".join(why)))
+                     "window-decidable (%s)" % (k, run, ml if not case.get("motifs") else "%s of %s" % (ml, case["motifs"]),
+                                                " as a bare string" if case.get("bare") else "", ", ".join(why)))
     elif out.kind == "raised" and isinstance(out.exc, ValueError):
         ctx.cls("ctor|rejected")
     else:
